@@ -31,9 +31,10 @@ class _T:
 class Sched:
     cur = None
 
-    def __init__(self, eng, preempt_bound):
+    def __init__(self, eng, preempt_bound, lines=False):
         self.eng = eng
         self.bound = preempt_bound
+        self.lines = lines           # additionally: every source line of the library executed by a worker is a yield point
         self.preempts = 0
         self.switches = 0
         self.threads = []
@@ -52,6 +53,9 @@ class Sched:
         def run():
             self._wait(t.sem)
             try:
+                if self.lines:
+                    import sys
+                    sys.settrace(self._tracer)
                 if self.abort is None:
                     t.result = fn()
             except (PathAbort, PathEnd, HarnessError) as e:
@@ -59,12 +63,27 @@ class Sched:
                     self.abort = e
             except BaseException as e:
                 t.exc = e
+            finally:
+                if self.lines:
+                    import sys
+                    sys.settrace(None)
             t.done = True
             self._finish(t)
 
         t.thread = _th.Thread(target=run, daemon=True)
         t.thread.start()
         return t
+
+    def _tracer(self, frame, event, arg):
+        fn = frame.f_code.co_filename
+        if '/file_builder/' not in fn or '/test/' in fn or '/verif/' in fn:
+            return None
+        return self._line_tracer
+
+    def _line_tracer(self, frame, event, arg):
+        if event == 'line' and self.running and self.preempts < self.bound:
+            self.yield_point('line %s:%d' % (frame.f_code.co_filename.rsplit('/', 1)[-1], frame.f_lineno))
+        return self._line_tracer
 
     def _wait(self, sem):
         if not sem.acquire(timeout=WATCHDOG_S):
